@@ -300,6 +300,18 @@ func (m *Machine) Exec(op Op) (Event, error) {
 		if !ev.Big {
 			ev.Post = unread(b)
 		}
+	case "regfactory":
+		// the application registers (or overrides) a discriminator: table From, key Bytes, body type T
+		rf, ok := Registries[op.From]
+		if !ok {
+			return ev, fmt.Errorf("unknown table %q", op.From)
+		}
+		ctor, ok := Ctors[op.T]
+		if !ok {
+			return ev, fmt.Errorf("unknown type %q", op.T)
+		}
+		rf(op.Bytes, func() codec.BinaryCodec { return ctor().(codec.BinaryCodec) })
+		ev.Res = "ok"
 	case "regremove":
 		// the caller removes a checksum service from the library's registry (restored by "regrestore")
 		svc, ok := codec.Get(op.Alg)
